@@ -162,13 +162,16 @@ struct Resp {
 fn make_response(r: &mut Rng, ep: &Ep) -> Resp {
     let binary = matches!(ep.class, Class::Binary | Class::OptionalBinary);
     let requested: &[u8] = if binary { b"application/octet-stream" } else { b"application/json" };
-    let (ct, ct_class): (Option<Vec<u8>>, &'static str) = match r.below(14) {
+    let (ct, ct_class): (Option<Vec<u8>>, &'static str) = match r.below(18) {
         0 => (None, "absent"),
         1 => (Some(if binary { b"application/json".to_vec() } else { b"application/octet-stream".to_vec() }), "other-conjure-type"),
         2 => (Some(b"application/x-jackson-smile".to_vec()), "smile"),
         3 => (Some(b"text/plain".to_vec()), "text"),
         4 => (Some([requested, b"; charset=utf-8"].concat()), "with-parameters(observed-only)"),
         5 => (Some(requested.to_ascii_uppercase()), "upper-case(observed-only)"),
+        6 => (Some(b"text/html; charset=\xe9".to_vec()), "non-ascii"),
+        7 => (Some([requested, b"\xff"].concat()), "non-ascii"),
+        8 => (Some([requested, b"+zip"].concat()), "suffix"),
         _ => (Some(requested.to_vec()), "requested"),
     };
     let status = match r.below(10) {
@@ -483,7 +486,7 @@ pub fn run(ctx: &Ctx, report: &mut Report) {
     if ctx.replay.is_none() {
         report.floor_cells("return-classes", "class/", 12);
         report.floor_cells("body-classes", "body/", 10);
-        report.floor_cells("content-type-classes", "content-type/", 7);
+        report.floor_cells("content-type-classes", "content-type/", 9);
         report.floor_cells("chunk-paths", "chunks/", 8);
         report.floor_cells("stream-error-paths", "stream-error/", 8);
     }
